@@ -68,8 +68,12 @@ class CounterTokenDependency(Dependency):
 
     @property
     def name(self):
-        """The (file) name for this dependency, when taken"""
-        return f"{self.target.identifier}.token"
+        """The (file) name for this dependency, when taken
+
+        The name is specific to the process holding the token: when several
+        schedulers run the same job, each holding has its own file
+        """
+        return f"{self.target.identifier}.{os.getpid()}.token"
 
     def status(self) -> DependencyStatus:
         if self.count <= self.token.available:
